@@ -365,7 +365,12 @@ func (q *queryStmtParser) visitExprAtom(ctx *grammar.ExprAtomContext) {
 			valStr = ctx.IntNumber().GetText()
 		}
 
-		val, _ := strconv.ParseFloat(valStr, 64)
+		val, err := strconv.ParseFloat(valStr, 64)
+		if err != nil {
+			// number is out of range(float64), it cannot be executed/serialized.
+			q.err = fmt.Errorf("invalid number: %s", valStr)
+			return
+		}
 		if !q.exprStack.Empty() {
 			q.setExprParam(&stmt.NumberLiteral{Val: val})
 		}
@@ -464,10 +469,15 @@ func (q *queryStmtParser) completeHaving(_ *grammar.HavingClauseContext) {
 }
 
 // completeBoolExpr complete a bool expr
-func (q *queryStmtParser) completeBoolExpr(_ *grammar.BoolExprContext) {
+func (q *queryStmtParser) completeBoolExpr(ctx *grammar.BoolExprContext) {
 	cur := q.exprStack.Pop()
 	if cur != nil {
 		expr, ok := cur.(stmt.Expr)
+		if ok && isIncompleteExpr(expr) {
+			// operand of bool expr is missing(like duration or * in having: f>1m), it cannot be executed/serialized.
+			q.err = fmt.Errorf("invalid having expr, operand of expr is missing: %s", ctx.GetText())
+			return
+		}
 		if ok {
 			if q.exprStack.Empty() {
 				q.exprStack.Push(cur)
